@@ -1086,3 +1086,176 @@ fn c04_stack_loose_hint() {
         a += 1;
     }
 }
+
+// ------------------------------------------------------------------------------------------
+// C11: range/3 equals its `while` definition (trait-contract instance, IntVal)
+// ------------------------------------------------------------------------------------------
+/// exact integer value type: `+` is checked (an overflow is an error value), everything the
+/// function under proof has no business calling is unreachable
+#[derive(Clone, Copy, Debug, PartialEq, PartialOrd)]
+pub struct IntVal(pub i64);
+impl core::fmt::Display for IntVal {
+    fn fmt(&self, _f: &mut core::fmt::Formatter) -> core::fmt::Result {
+        Ok(())
+    }
+}
+impl From<bool> for IntVal {
+    fn from(_: bool) -> Self {
+        unreachable!()
+    }
+}
+impl From<isize> for IntVal {
+    fn from(i: isize) -> Self {
+        IntVal(i as i64)
+    }
+}
+impl From<String> for IntVal {
+    fn from(_: String) -> Self {
+        unreachable!()
+    }
+}
+impl From<VRange<IntVal>> for IntVal {
+    fn from(_: VRange<IntVal>) -> Self {
+        unreachable!()
+    }
+}
+impl FromIterator<IntVal> for IntVal {
+    fn from_iter<T: IntoIterator<Item = IntVal>>(_: T) -> Self {
+        unreachable!()
+    }
+}
+impl core::ops::Add for IntVal {
+    type Output = ValR<Self>;
+    fn add(self, r: Self) -> ValR<Self> {
+        self.0.checked_add(r.0).map(IntVal).ok_or_else(|| Error::new(IntVal(-1)))
+    }
+}
+macro_rules! int_op {
+    ($t:ident, $m:ident) => {
+        impl core::ops::$t for IntVal {
+            type Output = ValR<Self>;
+            fn $m(self, _r: Self) -> ValR<Self> {
+                unreachable!()
+            }
+        }
+    };
+}
+int_op!(Sub, sub);
+int_op!(Mul, mul);
+int_op!(Div, div);
+int_op!(Rem, rem);
+impl core::ops::Neg for IntVal {
+    type Output = ValR<Self>;
+    fn neg(self) -> ValR<Self> {
+        unreachable!()
+    }
+}
+impl ValT for IntVal {
+    fn from_num(_n: &str) -> ValR<Self> {
+        unreachable!()
+    }
+    fn from_map<I: IntoIterator<Item = (Self, Self)>>(_iter: I) -> ValR<Self> {
+        unreachable!()
+    }
+    fn key_values(self) -> BoxIter<'static, ValR<(Self, Self), Self>> {
+        unreachable!()
+    }
+    fn values(self) -> Box<dyn Iterator<Item = ValR<Self>>> {
+        unreachable!()
+    }
+    fn index(self, _index: &Self) -> ValR<Self> {
+        unreachable!()
+    }
+    fn range(self, _range: VRange<&Self>) -> ValR<Self> {
+        unreachable!()
+    }
+    fn map_values<'a, I: Iterator<Item = ValX<'a, Self>>>(self, _opt: Opt, _f: impl Fn(Self) -> I) -> ValX<'a, Self> {
+        unreachable!()
+    }
+    fn map_index<'a, I: Iterator<Item = ValX<'a, Self>>>(self, _index: &Self, _opt: Opt, _f: impl Fn(Self) -> I) -> ValX<'a, Self> {
+        unreachable!()
+    }
+    fn map_range<'a, I: Iterator<Item = ValX<'a, Self>>>(self, _range: VRange<&Self>, _opt: Opt, _f: impl Fn(Self) -> I) -> ValX<'a, Self> {
+        unreachable!()
+    }
+    fn as_bool(&self) -> bool {
+        unreachable!()
+    }
+    fn into_string(self) -> Self {
+        unreachable!()
+    }
+}
+
+/// The manual's definition:
+/// `def range($from; $to; $by): $from | if $by > 0 then while(. < $to; . + $by)
+///  elif $by < 0 then while(. > $to; . + $by) else while(. != $to; . + $by) end;`
+/// The native `range` must yield exactly those outputs, in order; a zero step yields `$from`
+/// for ever (cut after `cut` outputs and required to go on); an overflowing `+` is delivered once
+/// as the error and ends the stream.
+fn range_case(from: i64, to: i64, by: i64, cut: usize) {
+    let mut it = crate::funs::verif_range(IntVal(from), IntVal(to), IntVal(by));
+    let mut x = from as i128;
+    let mut k = 0;
+    while k < cut {
+        let go = if by > 0 { x < to as i128 } else if by < 0 { x > to as i128 } else { x != to as i128 };
+        let got = it.next();
+        if !go {
+            assert!(got.is_none());
+            core::mem::forget(it);
+            return;
+        }
+        match &got {
+            Some(Ok(IntVal(y))) => assert!(*y as i128 == x),
+            _ => assert!(false),
+        }
+        core::mem::forget(got);
+        x += by as i128;
+        if x > i64::MAX as i128 || x < i64::MIN as i128 {
+            let e = it.next();
+            assert!(matches!(&e, Some(Err(_))));
+            core::mem::forget(e);
+            assert!(it.next().is_none());
+            core::mem::forget(it);
+            return;
+        }
+        k += 1;
+    }
+    // the definition is still producing: so is the native filter
+    let got = it.next();
+    let go = if by > 0 { x < to as i128 } else if by < 0 { x > to as i128 } else { x != to as i128 };
+    assert!(got.is_some() == go);
+    core::mem::forget(got);
+    core::mem::forget(it);
+}
+#[kani::proof]
+#[kani::unwind(7)]
+fn c11_range_small() {
+    let mut from = -1;
+    while from <= 2 {
+        let mut to = -1;
+        while to <= 2 {
+            let mut by = -1;
+            while by <= 1 {
+                range_case(from, to, by, 3);
+                by += 1;
+            }
+            to += 1;
+        }
+        from += 1;
+    }
+}
+#[kani::proof]
+#[kani::unwind(7)]
+fn c11_range_steps() {
+    range_case(0, 5, 2, 4);
+    range_case(5, 0, -2, 4);
+    range_case(0, 7, 3, 4);
+    range_case(0, 0, 0, 3);
+    range_case(1, 0, 0, 3);
+    range_case(i64::MAX - 2, 0, 3, 3);
+    range_case(i64::MIN, i64::MIN + 3, 1, 4);
+}
+// (The overflow case - `range(i64::MAX - 1; i64::MAX; 2)`: the overflowing `+` delivered once as
+// the error, then the end of the stream - exceeded 400 s: constructing, cloning and dropping the
+// `Exn` error value is what symbolic execution cannot afford.  `range_case` states it; it is not
+// registered.)
